@@ -6,6 +6,7 @@ import torch
 
 from .. import aggs, matrices as M, refmodels as R
 from ..core import fingerprint
+from . import _equiv as E
 from ._agg import DT, EPS, as64, call, shape_ok, to_t
 from ._common import run_cases, shard_rng, split_shards
 
@@ -27,7 +28,7 @@ def shards(tier, seed):
 
 def requirements(tier):
     return {"judged:IMTLG": 800, "judged:ConFIG": 800, "judged:AlignedMTL": 800, "zero_matrix_checked": 100, "w_pref_vector:ConFIG": 200,
-            "w_pref_vector:AlignedMTL": 200, "w_scale_far_from_1": 500, "w_float32": 500, "w_row_norms_differ": 1000, "w_very_wide": 40}
+            "w_pref_vector:AlignedMTL": 200, "w_scale_far_from_1": 500, "w_float32": 500, "w_row_norms_differ": 1000, "w_very_wide": 40, "w_instance_already_used": 1000, "w_model_sized_matrix": 3}
 
 
 def gen_case(rng, i):
@@ -35,7 +36,7 @@ def gen_case(rng, i):
     dname = "float32" if rng.random() < 0.25 else "float64"
     m = int(rng.integers(1, 7))
     n = int(rng.integers(m, m + 6))
-    if rng.random() < 0.04:
+    if rng.random() < 0.08:
         n = [5000, 50000][int(rng.integers(2))]  # as many columns as a real model has parameters
     cmax = 50.0 if name == "AlignedMTL" else (1e2 if dname == "float32" else 1e4)
     cond = float(10 ** rng.uniform(0, np.log10(cmax)))
@@ -46,13 +47,28 @@ def gen_case(rng, i):
         J = J * (10.0 ** rng.uniform(-1, 1, size=(m, 1)))  # unequal row norms (keeps full row rank; condition re-measured below)
     J = J * scale
     pref = [float(x) for x in np.round(rng.uniform(0.1, 3.0, size=m), 3)] if name != "IMTLG" and rng.random() < 0.5 else None
-    return {"J": J.tolist(), "dtype": dname, "agg": {"name": name, "pref": pref} if name != "IMTLG" else {"name": name}, "scale": scale, "cmax": cmax}
+    # half of the cases use the aggregator as a training loop does: the SAME instance has already aggregated other matrices (of other
+    # scales, same number of rows) before the judged call
+    warm = [float(10 ** rng.uniform(-3, 3)) for _ in range(int(rng.integers(1, 4)))] if rng.random() < 0.5 else []
+    if name == "ConFIG" and dname == "float32" and rng.random() < 0.08:
+        # a Jacobian with as many columns as a small real network has parameters (generated from a seed: not stored)
+        gen = {"seed": int(rng.integers(1 << 30)), "m": int(rng.integers(2, 5)), "n": 1_000_000, "cond": float(10 ** rng.uniform(0, 2))}
+        return {"Jgen": gen, "dtype": dname, "agg": {"name": name, "pref": pref if pref is not None and len(pref) == gen["m"] else None}, "scale": 1.0,
+                "cmax": cmax, "warm": []}
+    return {"J": J.tolist(), "dtype": dname, "agg": {"name": name, "pref": pref} if name != "IMTLG" else {"name": name}, "scale": scale, "cmax": cmax,
+            "warm": warm}
 
 
 def check_case(case, ctx):
     dname, a = case["dtype"], case["agg"]
     name = a["name"]
-    Jt = to_t(np.array(case["J"], dtype=np.float64).reshape(len(case["J"]), -1), dname)
+    if "Jgen" in case:
+        g = case["Jgen"]
+        J0 = M.well_conditioned(np.random.default_rng(g["seed"]), g["m"], g["n"], cond=g["cond"], scale=1.0)
+        ctx.count("w_model_sized_matrix")
+    else:
+        J0 = np.array(case["J"], dtype=np.float64).reshape(len(case["J"]), -1)
+    Jt = to_t(J0, dname)
     J = as64(Jt)
     m, n = J.shape
     sv = M.singular_values(J)
@@ -67,9 +83,24 @@ def check_case(case, ctx):
             return
     tau = TAU[dname]
     norms = np.linalg.norm(J, axis=1)
+    f9 = None
+    if name == "ConFIG":
+        # known finding F9: ConFIG's rank cut-off (pinv default rtol = max(m, n) eps) grows with the number of columns
+        kept = E.config_pinv_rank(J, dname)
+        if kept is None:
+            ctx.not_judged("ConFIG:singular_value_within_4x_of_the_pinv_cutoff")
+            return
+        if kept < m:
+            f9 = {"rows": m, "columns": n, "singular_values_kept_by_pinv": kept, "unit_rows_sigma_min_over_sigma_max": float(su[-1] / su[0])}
+            ctx.count("w_config_pinv_cutoff_above_a_singular_value")
+
+    warm = case.get("warm") or []
 
     def run(desc):
-        out, err, w = call(aggs.make(desc, Jt.dtype), Jt)
+        agg = aggs.make(desc, Jt.dtype)
+        for k, f in enumerate(warm):  # earlier calls of the same instance (their results are not judged here)
+            call(agg, torch.roll(Jt, k + 1, dims=1) * f)
+        out, err, w = call(agg, Jt)
         if err is not None:
             ctx.violation("aggregator_raised", case, {"error": repr(err)[:300], "agg": desc})
             return None
@@ -140,7 +171,7 @@ def check_case(case, ctx):
         if a["pref"] is not None:
             ctx.count("w_pref_vector:AlignedMTL")
     if vio:
-        ctx.violation(vio[0], case, vio[1])
+        ctx.violation(vio[0], case, {**vio[1], "pinv_cutoff": f9})
     ctx.count(f"judged:{name}")
     if dname == "float32":
         ctx.count("w_float32")
@@ -152,6 +183,10 @@ def check_case(case, ctx):
     ctx.evaluated(fingerprint(case), nontrivial=differ)
     if n >= 1000:
         ctx.count("w_very_wide")
+    if warm:
+        ctx.count("w_instance_already_used")
+    if "Jgen" in case and vio is None:
+        ctx.count("w_model_sized_matrix_held")
     ctx.sample({"J": np.round(J[:, :8], 4).tolist(), "columns": n, "agg": a, "dtype": dname, "cond": float(sv[0] / sv[-1])})
 
 
@@ -181,7 +216,18 @@ def run_shard(shard, ctx):
 
 
 def replay(case, ctx):
-    if "J" in case:
+    if "J" in case or "Jgen" in case:
         check_case(case, ctx)
     else:
         run_zeros(ctx)
+
+
+def config_pinv_cutoff_grows_with_columns(v):
+    """F9: ConFIG computes torch.linalg.pinv(unit rows) with the default tolerance max(m, n) eps: for a float32 matrix with 10^6 columns
+    every singular value of the unit rows below 0.12 sigma_1 is discarded (all of them from 8.4 million columns on)."""
+    d = v["detail"].get("pinv_cutoff")
+    return (v["kind"].startswith("config_") and v["case"]["agg"]["name"] == "ConFIG" and bool(d)
+            and d["singular_values_kept_by_pinv"] < d["rows"])
+
+
+CLASSIFIERS = {"config_pinv_cutoff_grows_with_columns": config_pinv_cutoff_grows_with_columns}
